@@ -145,10 +145,21 @@ Section C20.
     destruct (todo l) as [|o rest] eqn:T.
     { cbn. eapply inv_local; eauto. apply incl_refl.
       intros (id & r & Ht & _). congruence. }
-    destruct o as [id r ts|id r ts|id r|id].
+    destruct o as [id r ts|id r ts|id r c|id r i|id r|id r|id r i c|id].
+    3-7: (* rule catalog operations *)
+      (destruct (pc l); cbn [fst snd];
+       match goal with
+       | |- context [rule_step ?cat ?op] => destruct (rule_step cat op) as [[cat' rr]|] eqn:RS
+       end; cbn [fst snd];
+       [ eapply inv_write; eauto;
+         [intros; discriminate | cbn; apply incl_refl | apply not_reading_pc0; reflexivity]
+       | eapply inv_local; eauto; [cbn; apply incl_refl | apply not_reading_pc0; reflexivity]
+       | eapply inv_write; eauto;
+         [intros; discriminate | cbn; apply incl_refl | apply not_reading_pc0; reflexivity]
+       | eapply inv_local; eauto; [cbn; apply incl_refl | apply not_reading_pc0; reflexivity] ]).
     - (* insert *)
       destruct (pc l) as [|[|n]] eqn:P.
-      + destruct (existsb (N.eqb r) (vrules (live g))); cbn [fst snd].
+      + destruct (existsb (N.eqb r) (map fst (vrules (live g)))); cbn [fst snd].
         * eapply inv_local; eauto. cbn. apply incl_refl. apply not_reading_pc0. reflexivity.
         * eapply inv_local; eauto. cbn. apply incl_refl.
           intros (i & rr & Ht & _). cbn in Ht. rewrite T in Ht. discriminate.
@@ -172,10 +183,6 @@ Section C20.
           cbn [apply_op]. rewrite (del_all_nochange _ _ _ E). destruct (live g); reflexivity.
         * cbn. apply incl_refl.
         * apply not_reading_pc0. reflexivity.
-    - (* rule *)
-      destruct (pc l); cbn [fst snd];
-        (eapply inv_write; eauto;
-         [intros; discriminate | cbn; apply incl_refl | apply not_reading_pc0; reflexivity]).
     - (* read *)
       destruct HI as (Hl & Hs & Ho & Hf).
       assert (Hlo : loc_ok (alog g) l).
@@ -257,8 +264,11 @@ Proof.
       { intros o' Hi. apply in_app_or in Hi. destruct Hi as [Hi|[<-|[]]]; auto. }
       assert (Hsame : forall o', In o' (o :: rest) -> from_progs progs o').
       { intros o' [<-|Hi]; auto. }
-      destruct o as [id r ts|id r ts|id r|id]; destruct (pc l) as [|[|n]];
-        try destruct (existsb (N.eqb r) (vrules (live g)));
+      destruct o as [id r ts|id r ts|id r c|id r i|id r|id r|id r i c|id]; destruct (pc l) as [|[|n]];
+        try destruct (existsb (N.eqb r) (map fst (vrules (live g))));
+        try match goal with
+            | |- context [rule_step ?cat ?op] => destruct (rule_step cat op) as [[? ?]|]
+            end;
         cbn [fst snd write_section alog todo finish advance];
         (split; [apply Forall_upd; auto; cbn; try rewrite T; auto | auto]).
     - split.
